@@ -58,6 +58,10 @@ func vfC03Request(t0 time.Time) (*types.FetchNodeCredentialsRequest, *vfC03) {
 		CertificatePublicKeyPkix: vf.Pkix(c.k), CertificatePublicKeyType: types.KEYTYPE(c.certType),
 		Nonce: c.nonce, EncryptionPublicKeyBytes: c.encPub, EncryptionPublicKeyType: types.KEYTYPE(c.encType),
 		NotBefore: timestamppb.New(c.nb), NotAfter: timestamppb.New(c.na),
+		// the fields validation has no business with are the requester's to fill as well: a "previous" certificate
+		// key (any key of the universe, e.g. the one that actually signed) and a key ID of its choosing
+		PreviousCertificatePublicKeyPkix: vf.IfBytes(vf.Bool("bundle-names-a-previous-key"), vf.Pkix(vf.Int("previous-key", 0, 2)), nil),
+		Id:                               vf.String("claimed-id", 8),
 	}
 	canonical, err := proto.Marshal(info)
 	if err != nil {
